@@ -1154,7 +1154,8 @@ func (g *Gen) famDidAdv() {
 		id := g.tx(MsgSpec{T: "did.Update", F: map[string]string{"did": did, "from": from}, Doc: doc, Proof: &ProofSpec{Key: k, MethodID: mid, Seq: "cur"}})
 		g.didTx = append(g.didTx, didRef{id, did})
 		degenerate := hex.EncodeToString(append(append([]byte{}, keyBytes...), make([]byte, 32)...))
-		id = g.tx(MsgSpec{T: "did.Update", F: map[string]string{"did": did, "from": g.addr(r.Intn(NumAccounts))}, Doc: g.didDoc(did, []int{other}, 0), Proof: &ProofSpec{Key: k, MethodID: x, RawSig: degenerate}})
+		id = g.tx(MsgSpec{T: "did.Update", F: map[string]string{"did": did, "from": g.addr(r.Intn(NumAccounts))}, Doc: doc, Proof: &ProofSpec{Key: k, MethodID: x, RawSig: degenerate}})
+		g.didTx = append(g.didTx, didRef{id, did})
 		g.emit(&TxSpec{Msgs: []MsgSpec{{T: "reuse", OfTx: id, OfMsg: 0}}, Note: "replay of accepted DID message"})
 		g.tx(MsgSpec{T: "did.Deactivate", F: map[string]string{"did": did, "from": from}, Proof: &ProofSpec{Key: k, MethodID: x, RawSig: degenerate}})
 	case 34, 35: // two secp256k1 methods under ONE id in authentication (nothing requires ids to be unique): the first one signs.
@@ -1335,6 +1336,22 @@ func (g *Gen) famDidAdv() {
 			upd(&ProofSpec{Key: k, MethodID: mid, Seq: "cur"}, doc)
 		}
 	case 17: // rotation that leaves the old key in verificationMethod under the SAME id as the new dedicated authentication method
+		if r.Chance(0.4) {
+			// ... or simply first in verificationMethod (assertion only) while authentication points at the new key; the old key
+			// then signs messages that leave the method id EMPTY ("the only key", a wallet might think)
+			nk := (k + 3) % NumDidKeys
+			oldID, newID := fmt.Sprintf("%s#key%d", did, k), fmt.Sprintf("%s#key%d", did, nk)
+			doc := &DocSpec{Id: did, VMs: []VMSpec{{Id: oldID, Type: "EcdsaSecp256k1VerificationKey2019", Controller: did, Key: k}, {Id: newID, Type: "EcdsaSecp256k1VerificationKey2019", Controller: did, Key: nk}},
+				Assertion: []RelSpec{{Ref: oldID}}, Auth: []RelSpec{{Ref: newID}}}
+			id := g.tx(MsgSpec{T: "did.Update", F: map[string]string{"did": did, "from": from}, Doc: doc, Proof: &ProofSpec{Key: k, MethodID: mid, Seq: "cur"}})
+			g.didTx = append(g.didTx, didRef{id, did})
+			if r.Chance(0.5) {
+				upd(&ProofSpec{Key: k, MethodID: "", Seq: "cur"}, g.didDoc(did, []int{k}, 0))
+			} else {
+				g.tx(MsgSpec{T: "did.Deactivate", F: map[string]string{"did": did, "from": from}, Proof: &ProofSpec{Key: k, MethodID: "", Seq: "cur"}})
+			}
+			return
+		}
 		nk := (k + 2 + r.Intn(5)) % NumDidKeys
 		if nk == k {
 			nk = (k + 1) % NumDidKeys
@@ -1408,6 +1425,21 @@ func (g *Gen) famDidAdv() {
 		upd(&ProofSpec{Key: k, MethodID: mid, Seq: "cur"}, g.didDoc(did, []int{k}, 0))
 		g.tx(MsgSpec{T: "did.Deactivate", F: map[string]string{"did": did, "from": from}, Proof: &ProofSpec{Key: k, MethodID: mid, Seq: "cur"}})
 	case 6: // C11: document about another identifier under this DID (signed by the other identifier's key)
+		if r.Chance(0.25) {
+			// an identifier whose first character is a letter of the method prefix ("did:panacea:" = d i p a n c e), presented
+			// under itself minus that character
+			// (identifiers are not tied to keys: any 32-44 base58 characters will do)
+			idp := g.env.Dids[other][len("did:panacea:"):]
+			if len(idp) > 40 {
+				idp = idp[:40]
+			}
+			lead := []string{"d", "a", "p", "e", "pan", "did", "acne"}[r.Intn(7)]
+			x := "did:panacea:" + lead + idp
+			if g.plan.Did[x] == nil {
+				g.tx(MsgSpec{T: "did.Create", F: map[string]string{"did": "did:panacea:" + idp, "from": from}, Doc: g.didDoc(x, []int{other}, 0), Proof: &ProofSpec{Key: other, MethodID: fmt.Sprintf("%s#key%d", x, other), Seq: "0"}})
+				return
+			}
+		}
 		odid := g.env.Dids[other]
 		doc := g.didDoc(odid, []int{other}, 0)
 		if r.Chance(0.4) && len(odid) > len("did:panacea:")+33 {
